@@ -143,6 +143,11 @@ def run_property(run, pid, families, prop_file, proof_files, n_quick=210, n_thor
             run.violation(key, payload, "%s fails on the implementation's observed trace (scenario %s/%s)" % (mon, fam, seed))
         else:
             owners, kind = owners_of(l)
+            # Run()'s result after an ABORTED start-up (fewer Run invocations than runnables) is also C03's
+            # business ("... and Run() returns that error"), not only C04's
+            mn = re.search(r" n=(\d+) ", l)
+            if kind == "RunReturn" and mn and txt.count("\nEV RunCall ") < int(mn.group(1)):
+                owners = set(owners) | {"C03"}
             if pid not in owners:
                 other_rej += 1
                 continue
